@@ -21,6 +21,7 @@ ITERABLE_NONVIEWS = ("values", "values_multi", "data", "dicts", "records", "name
 # exactly that - so a later change of the column layout is not theirs to see; row edits are
 HEADER_AT_CONSTRUCTION = ("join_natural", "recordcomplement", "recorddiff0", "recorddiff1", "unjoin_nokey_left",
                           "unjoin_nokey_right", "diff0", "diff1", "convertall", "replaceall", "formatall", "interpolateall")
+HEADER_AT_CONSTRUCTION += tuple(n + "_natural" for n in ("leftjoin", "rightjoin", "outerjoin", "antijoin", "lookupjoin"))
 # replay a cache by design and offer the catalogue no way to switch it off: the hash joins called with their default
 # cache=True (the lookup of the build side is kept), groupcountdistinctvalues (inner distinct/aggregate with default caches)
 CACHED_BY_DESIGN = ("hashjoin", "hashleftjoin", "hashrightjoin", "hashleftjoin_missing", "groupcountdistinctvalues")
